@@ -320,9 +320,11 @@ func (g *Gen) commentLine() string {
 		{[]string{" ", "", "\t"},
 			[]string{"fi()", "x := 1", "return", "return nil, err", "if x {", "}", "import", "for i := 0; i < 3; i++ {", "x = append(x, 1)", "var x int", "func f() {}", "a.b.c()", "x++", "go f()", "defer f()", "switch x {", "case 1:", "f(", ")", "x, y = y, x"},
 			[]string{"", " ", ";", " // "}, []string{"", "x", " }", "fi()", "\"fmt\"", "+ 1", "{"}},
-		{[]string{" ", "", "!", "#", "/", "-", "  ", "\t"},
+		// (no empty lead here: `//go:...` after code on the same line is a "misplaced compiler directive";
+		// no `*/` in a tail: the hole also occurs inside block comments)
+		{[]string{" ", "!", "#", "/", "-", "  ", "\t"},
 			[]string{"go:generate", "+build", "export", "line", "http://x", "é", "%s", "*", "=", "-----", "  indented", "a", "A sentence.", "go:build x", "lint:file-ignore"},
-			[]string{"", " ", ":"}, []string{"", "x", "%!s(", "<nil>", "/* z */", "é"}},
+			[]string{"", " ", ":"}, []string{"", "x", "%!s(", "<nil>", "/* z", "é"}},
 	}
 	f := fams[g.Rng.Intn(len(fams))]
 	pick := func(xs []string) string { return xs[g.Rng.Intn(len(xs))] }
@@ -617,8 +619,28 @@ func (g *Gen) Generate(n int, manifest string) error {
 		sort.SliceStable(cands, func(a, c int) bool {
 			return hasClass(cands[a], "api") && !hasClass(cands[c], "api") && theme != "real"
 		})
+		chosen := append([]*Snippet(nil), cands[:k]...)
+		// rotation: whatever the seed, every snippet that is not API-specific occurs in one of
+		// any len(rest) consecutive packages (small corpora would otherwise miss whole families,
+		// because the namesake themes put the API snippets first)
+		var rest []*Snippet
+		for _, s := range Snippets {
+			if !hasClass(s, "api") {
+				rest = append(rest, s)
+			}
+		}
+		for _, j := range []int{i % len(rest), (i*7 + 3) % len(rest)} {
+			s := rest[j]
+			dup := false
+			for _, c := range chosen {
+				dup = dup || c == s
+			}
+			if !dup && compatible(s, b) {
+				chosen = append(chosen, s)
+			}
+		}
 		name := fmt.Sprintf("p%04d", i)
-		spec, err := g.Emit(filepath.Join(g.Out, name), name, b, cands[:k], theme)
+		spec, err := g.Emit(filepath.Join(g.Out, name), name, b, chosen, theme)
 		if err != nil {
 			return err
 		}
